@@ -152,9 +152,9 @@ func CrossStmts() []Stmt {
 		S(2, true, "setf(v,0,x)", "setf(v, 0, x)"),
 		S(2, true, "v=mk()", "v = mk()"),
 		// several calls that return slices alive in one statement
-		S(3, true, "x=sumv(mk2,mk2)", "x = sumv(mk2(x), mk2(y))"),
+		S(2, true, "x=sumv(mk2,mk2)", "x = sumv(mk2(x), mk2(y))"),
 		S(3, true, "v,z=mk2,mk2", "v, z = mk2(1), mk2(5)"),
-		S(3, true, "v,z=both()", "v, z = both(y)"),
+		S(2, true, "v,z=both()", "v, z = both(y)"),
 		S(3, true, "x=len(mk2)+len(mk)", "x = len(mk2(1)) + len(mk()) + sumv(v, mk2(2))"),
 		// slices and strings
 		S(3, true, "v[0]=x", "v[0] = x"),
@@ -178,6 +178,9 @@ func CrossStmts() []Stmt {
 		S(3, true, "u=s[0:1]", "u = s[0:1]"),
 		S(3, true, "u=s[1:]", "u = s[1:]"),
 		S(3, true, "u=s[:1]", "u = s[:1]"),
+		// subscripts of an EMPTY string (alone: after whatever substring was taken before; and between two others)
+		S(3, true, "u=empty[0:0]", "em# := \"\"\nu = em#[0:0] + em#[0:] + em#[:0]"),
+		S(3, true, "u=sub+emptysub+sub", "en# := \"\"\nu = s[0:1] + en#[0:] + s[1:]"),
 		S(3, false, "u=s[len(s)-1]", "u = s[len(s) - 1]"),
 		S(3, true, "x=len+len+len", "x = len(s) + len(v) + len(w)"),
 		S(3, false, "t=s==u||s[0]==a", `t = s == u || s[0] == "a"`),
